@@ -36,7 +36,8 @@ fn bogus_entry() -> BoxedStrategy<Entry> {
 
 fn garbage_entry() -> BoxedStrategy<Entry> {
     prop_oneof![
-        2 => (0u8..10).prop_map(Entry::Garbage),
+        2 => (0u8..13).prop_map(Entry::Garbage),
+        1 => (10u8..13).prop_map(Entry::Garbage),
         2 => (any::<u16>(), 0u8..5).prop_map(|(i, k)| Entry::Reencoded(i, k)),
     ]
     .boxed()
